@@ -139,6 +139,14 @@ def base_config(draw, nmin=16, nmax=64, max_laststep=60, min_laststep=1, multibu
         o["BunchCurrent"] = list(pat)
         o["RoundPadding"] = True
         sps = draw(st.floats(1.05, 2.5))
+        if draw(st.integers(0, 2)) == 0:
+            # not rounded to powers of two: the radiation field's length comes from the pool (odd lengths included), the
+            # train's own length is whatever the spacing gives (one more FFTW plan, bounded in size)
+            o["RoundPadding"] = False
+            N = draw(st.sampled_from(gen.npool_at_least(2 * n, 6 * n)))
+            o["padding"] = padding_for(N, n)
+            sps = min(sps, 600.0 / (n * len(pat)))
+            sps = max(sps, 1.02)
         o["alpha0"] = gen.f32(alpha0_for_spacing(sps, o))
     else:
         o["BunchCurrent"] = [gen.f32(draw(st.floats(1e-4, 3e-3)))]
